@@ -6,7 +6,7 @@ import random
 import shutil
 
 from harness import gen, impl, refspec
-from harness.common import Driver, MachineryError, Run, hx, sandbox, write_tree
+from harness.common import Driver, MachineryError, Run, drive, hx, sandbox, write_tree
 from harness.props import creation as cr
 from harness.props import metas
 
@@ -156,6 +156,10 @@ def run_case(run, drv, case_seed, tier):
                              {"raised": repr(exc)})
                     continue
             check("spelling:" + label, raw)
+            drv.ask(f"torrentname {hx(wd.encode())} {hx(spelled.encode('utf8'))}",
+                    ("name", dict(case, variant=label, cwd=wd.replace(box, "$BOX"),
+                                  spelling=spelled.replace(box, "$BOX")),
+                     refspec.lenient_decode(raw)[b"info"].get(b"name")))
         # copy elsewhere
         copy_parent = os.path.join(box, "deep", "er")
         os.makedirs(copy_parent)
@@ -273,7 +277,26 @@ def listing_model(run, drv, tier):
             rng.shuffle(shuffled)
             drv.ask("listv1 " + " ".join(p.encode("utf8").hex() for p in shuffled),
                     ({"listing": paths}, got))
-    for (case, got), req, out in drv.run():
+    answers = drv.run()
+    for slot, req, out in [a for a in answers if a[0][0] == "name"]:
+        _, case, name = slot
+        run.model_checked += 1
+        model = b"" if out.strip() == "-" else bytes.fromhex(out.strip()) if not out.startswith("ERR") else None
+        if model != name:
+            run.fail("impl-vs-model", case, {"correspondence": "Impl.torrentName (basename(abspath))",
+                                             "model": out[:80], "impl": repr(name)})
+    # UTF-8 byte order = code point order on the name pool (proved: utf8_order_preserving)
+    pool = sorted(set(gen.NAMES + gen.DIRS))
+    pairs = [(a, b) for a in pool[:24] for b in pool[:24]]
+    more = drive([f"utf8le {len(a)} " + " ".join(str(ord(c)) for c in a) + " " +
+                  " ".join(str(ord(c)) for c in b) for a, b in pairs])
+    for (a, b), out in zip(pairs, more):
+        run.model_checked += 1
+        want = "1" if a <= b else "0"
+        if out.split() != [want, "1" if a.encode("utf8") <= b.encode("utf8") else "0"] or \
+                out.split()[0] != out.split()[1]:
+            run.fail("spec-vs-ref", {"names": [a, b]}, {"lean": out, "python str <=": want})
+    for (case, got), req, out in [a for a in answers if a[0][0] != "name"]:
         if out.startswith("ERR"):
             if os.environ.get("VERIF_DEV") and "bad-op" in out:
                 continue
